@@ -219,14 +219,6 @@ theorem onlyOptional_mem (gs fs : Fields) (b : FAttr) (u : FTy) (h : onlyOptiona
   have := List.all_eq_true.1 h (b, u) hm
   simpa [hs, hf] using this
 
-theorem k5Hit_false (gs fs : Fields) (m : Nat) (h : k5Hit gs fs (some m) = false) (b : FAttr) (u : FTy)
-    (hm : (b, u) ∈ gs) (hs : b.skip = false) (hf : findField fs b.idx = none) (hle : b.idx ≤ m) : b.tag = none := by
-  simp only [k5Hit, List.any_eq_false] at h
-  have := h (b, u) hm
-  cases ht : b.tag with
-  | none => rfl
-  | some x => simp [hs, hf, hle, ht] at this
-
 /-! ### per-item statements supplied by the induction over the schema -/
 
 /-- the reader's field decoder on the writer's encoding of a (non-nil) shared field: it delivers
@@ -265,7 +257,9 @@ theorem action_swallow (b : FAttr) (u : FTy) (X r r' : Bytes)
     (hdec : decWith b.codec (decTy u) (X ++ r) = .err .variant r')
     (hskip : Dec.skip true (tagBytes b.tag ++ (X ++ r)) = .ok () r) :
     action (fdOf b u) (tagBytes b.tag ++ (X ++ r)) = .ok none r := by
-  unfold action
+  have hb : bareNull (fdOf b u) (tagBytes b.tag ++ (X ++ r)) = .ok false (tagBytes b.tag ++ (X ++ r)) :=
+    bareNull_tagBytes (fdOf b u) (X ++ r) htag
+  rw [action_of_not_bare _ _ hb]
   simp only [fdOf]
   rw [Dec.bind_run, tagCheck_rt _ _ htag]
   simp only [catchVariant, hdec, hsw, f5Fixed, Bool.and_self, beq_self_eq_true, if_true]
@@ -296,7 +290,7 @@ def rhoC (fs : Fields) (vs : List Val) (gs : Fields) (i : Nat) : Option Val :=
              | .ok x => some x
              | _ => none)
        | none => none)
-  | none => (findField gs i).map fun g => nilVal g.1 g.2
+  | none => (findField gs i).bind fun g => if g.1.tag.isSome then none else some (nilVal g.1 g.2)
 
 theorem onWire_of_not_nil (enc : Encoding) (fs : Fields) (vs : List Val)
     (hacc : acceptedFields fs = true) (hty : hasFields fs vs = true)
@@ -329,7 +323,6 @@ structure BodyHyp (enc : Encoding) (fs : Fields) (vs : List Val) (gs : Fields) :
   ndR  : (liveIdxs gs).Nodup
   cf   : compatFields fs gs = true
   oo   : onlyOptional gs fs = true
-  k5   : enc = .array → k5Hit gs fs (maxPresent (specFields fs vs)) = false
   len  : (frame enc (encFields fs vs)).length < 2 ^ 64
   items : FieldsC gs fs vs
 
@@ -395,8 +388,7 @@ theorem stepC_piece (enc : Encoding) (fs : Fields) (vs : List Val) (gs : Fields)
 
 /-- the reader's action on the `null` at a gap of the writer's array. -/
 theorem stepC_gap (enc : Encoding) (fs : Fields) (vs : List Val) (gs : Fields) (H : BodyHyp enc fs vs gs)
-    (i : Nat) (hl : lookupVal fs vs i = none)
-    (hk5 : ∀ b u, (b, u) ∈ gs → b.skip = false → b.idx = i → b.tag = none) :
+    (i : Nat) (hl : lookupVal fs vs i = none) :
     StepH gs (rhoC fs vs gs i) i Enc.null := by
   intro r
   constructor
@@ -407,13 +399,17 @@ theorem stepC_gap (enc : Encoding) (fs : Fields) (vs : List Val) (gs : Fields) (
     have hni : b.idx ∉ liveIdxs fs := by rw [hbi]; exact (lookupVal_none fs vs i H.ty).1 hl
     have hopt := onlyOptional_mem gs fs b u H.oo hbu hbs ((findField_none fs b.idx).2 hni)
     have hok := fieldOk_of_mem gs b u H.accR hbu hbs
-    have htag := hk5 b u hbu hbs hbi
-    have hd := dec_null_nil b u r hopt hok.2
-    simp only [rhoC, hl, hf, Option.map_some]
-    unfold action
-    simp only [fdOf, htag, tagCheck]
-    rw [Dec.bind_run]
-    simp only [Dec.pure_run, catchVariant, hd]
+    cases htag : b.tag with
+    | none =>
+      have hd := dec_null_nil b u r hopt hok.2
+      simp only [rhoC, hl, hf, Option.bind_some, htag, Option.isSome_none, Bool.false_eq_true, if_false]
+      rw [action_of_not_bare _ _ (bareNull_untagged _ _ (by simp [fdOf, htag]))]
+      simp only [fdOf, htag, tagCheck]
+      rw [Dec.bind_run]
+      simp only [Dec.pure_run, catchVariant, hd]
+    | some n =>
+      simp only [rhoC, hl, hf, Option.bind_some, htag, Option.isSome_some, if_true]
+      exact action_bare_null (fdOf b u) r (by simp [fdOf, htag]) (by simp only [fdOf, swallows_eq]; exact hopt)
 
 /-- what the reader ends up with in the slot of one of its fields equals the projection. -/
 theorem reader_val_eq (enc : Encoding) (fs : Fields) (vs : List Val) (gs : Fields) (H : BodyHyp enc fs vs gs)
@@ -448,7 +444,7 @@ theorem reader_val_eq (enc : Encoding) (fs : Fields) (vs : List Val) (gs : Field
       | some m =>
         rw [sigmaF_array fs vs _ m b.idx hm]
         by_cases hle : b.idx ≤ m
-        · simpa [hle, rhoC, hl, hf] using hnv
+        · cases htg : b.tag <;> simpa [hle, rhoC, hl, hf, htg] using hnv
         · simpa [hle] using hnv
   | some y =>
     obtain ⟨a, t, v⟩ := y
@@ -560,11 +556,7 @@ theorem body_compat (enc : Encoding) (fs : Fields) (vs : List Val) (gs : Fields)
       | none =>
         simp only [Option.map_none]
         intro _
-        exact stepC_gap .array fs vs gs H i hl (fun b u hbu hbs hbi => by
-          have hk := H.k5 rfl
-          rw [hm] at hk
-          have hni : b.idx ∉ liveIdxs fs := by rw [hbi]; exact (lookupVal_none fs vs i H.ty).1 hl
-          exact k5Hit_false gs fs m hk b u hbu hbs ((findField_none fs b.idx).2 hni) (by omega)))
+        exact stepC_gap .array fs vs gs H i hl)
     (by
       intro he p hp hn
       subst he
